@@ -1,3 +1,5 @@
+import Sebuf.Gen.Globals
+import Sebuf.RegisterLoop
 import Sebuf.Build
 import Sebuf.Lemmas.Ident
 import Sebuf.Lemmas.PropsC13
@@ -211,5 +213,38 @@ elements also leave the protojson import of the unwrap file unused. -/
 theorem w_map_value_unwrap_of_map_field :
     runGoHttp wrapMapRq = none ∧ "map_value_unwrap_of_map_field" ∈ goDefects wrapMapRq "go-http" ∧
     "unwrap_unused_import" ∈ goDefects wrapMapRq "go-http" ∧ goDefects wrapMapRq "go-client" = [] := by decide
+
+/-! ## The registration loop declares before it uses, for every list of methods
+
+`Sebuf.RegisterLoop` models the loop that prints `Register<Service>Server`. The regenerated facts say where the
+source stands: the declaration is printed under the test `i == 0`, and no iteration can leave the loop body before
+reaching that test. -/
+
+open RegisterLoop in
+theorem emitFrom_succ_all_assign {α : Type} (i : Nat) (ms : List α) : (emitFrom (i + 1) ms).all (· == Stmt.assign) = true := by
+  induction ms generalizing i with
+  | nil => rfl
+  | cons m r ih => simp [emitFrom, ih]
+
+open RegisterLoop in
+/-- **declared once, first** — for every service, whatever its methods are. -/
+theorem register_declares_before_use {α : Type} (ms : List α) : wellFormed (emit ms) = true := by
+  cases ms with
+  | nil => rfl
+  | cons m r => simp [emit, emitFrom, wellFormed, emitFrom_succ_all_assign]
+
+open RegisterLoop in
+/-- what a `continue` before the test does: when the first method is skipped and a later one is not, the first
+statement printed is an assignment to a variable nobody declared (seed C13-r8-1: streaming rpcs skipped). -/
+theorem register_skip_before_test_breaks :
+    ∃ (skip : String → Bool) (ms : List String), wellFormed (emitSkip skip ms) = false ∧ wellFormed (emit ms) = true :=
+  ⟨fun m => m == "Watch", ["Watch", "Peek"], by decide, by decide⟩
+
+/-- **tie**: the source prints the declaration under `i == 0`, every iteration assigns before it uses, and nothing
+lets an iteration leave before the test (regenerated from `internal/httpgen/generator.go`). -/
+theorem register_loop_transcribed :
+    Gen.Globals.registerLoopDeclareTest = "i == 0" ∧
+    Gen.Globals.registerLoopControlBeforeDeclare = [] ∧
+    Gen.Globals.generatorAssignsMethodHeadersPerIteration = true := by decide
 
 end Sebuf.C13
